@@ -17,7 +17,7 @@
                                                                     : CAS Pending -> Notified; return Ok
      wait(mode): CAS state Notified -> Idle (SeqCst/SeqCst): Ok => drain
                  else wait_call() (try / timed / blocking wait on the trigger); store state := Idle (SeqCst); drain
-                 drain: waiter.empty_buffer(); event.drain(callback):
+                 drain: waiter.empty_buffer(); [repaired protocol: store state := Idle (SeqCst) once more;] event.drain(callback):
                       bit_set reset_all:  for every word w: data_ptr.as_ptr() (load); v := swap(0, Relaxed); callback(8w+b) for every set bit b
                       counting reset_all: for every id:     data_ptr.as_ptr() (load); c := swap(0, Relaxed); if c != 0 callback(id, c)
    One step = one shared-memory access (one atomic operation on a word / counter / the
@@ -46,6 +46,7 @@ Inductive epc :=
 | LWait (m : wmode)        (* about to wait on the trigger *)
 | LStoreIdle               (* about to store Idle *)
 | LEmpty                   (* about to empty the trigger buffer *)
+| LStoreIdle2              (* repaired protocol: about to store Idle a second time, after empty_buffer and before the drain *)
 | LDrainPtr (w total : N)   (* about to load data_ptr for word / counter w; total = events reported so far *)
 | LDrain (w total : N).    (* about to swap word / counter w *)    (* about to swap word / counter w; total = events reported so far *)
 
@@ -58,6 +59,8 @@ Record elst := {
 Record egst := {
   kind : ekind; cap : N;    (* cap = event_id_max + 1 *)
   tcap : option N;          (* capacity of the trigger buffer *)
+  repaired : bool;          (* true: the drain closure of Waiter::drain_events is empty_buffer; store Idle; event.drain (current code);
+                               false: the protocol before the repair (empty_buffer; event.drain), kept for the refutation witness *)
   pdist : N;                (* value of the RelocatablePointer distance (relocatable_pointer.rs as_ptr loads it atomically before every word access; constant) *)
   after_wait : N -> N;      (* trigger policy: tokens left by a successful wait on n > 0 tokens (model trigger: n - 1) *)
   after_empty : N -> N;     (* trigger policy: tokens left by empty_buffer on n tokens (model trigger: 0) *)
@@ -110,27 +113,27 @@ Definition set_li (l : elst) (p : list eop) (c : epc) (x : N) : elst :=
   {| prog := p; at_pc := c; ffull := ffull l; my_idx := x |}.
 
 Definition upd_real (g : egst) (ws : N -> N) (s : nst) (tr : N) : egst :=
-  {| kind := kind g; cap := cap g; tcap := tcap g; pdist := pdist g; after_wait := after_wait g; after_empty := after_empty g; words := ws; st := s; trig := tr;
+  {| kind := kind g; cap := cap g; tcap := tcap g; repaired := repaired g; pdist := pdist g; after_wait := after_wait g; after_empty := after_empty g; words := ws; st := s; trig := tr;
      notified_total := notified_total g; delivered_total := delivered_total g; covered := covered g;
      done_idx := done_idx g; lost := lost g |}.
 
 (* the activation of id i takes effect (word already updated to ws) *)
 Definition activated (g : egst) (ws : N -> N) (i : N) (wrapped : bool) : egst :=
-  {| kind := kind g; cap := cap g; tcap := tcap g; pdist := pdist g; after_wait := after_wait g; after_empty := after_empty g; words := ws; st := st g; trig := trig g;
+  {| kind := kind g; cap := cap g; tcap := tcap g; repaired := repaired g; pdist := pdist g; after_wait := after_wait g; after_empty := after_empty g; words := ws; st := st g; trig := trig g;
      notified_total := fupd (notified_total g) i (notified_total g i + 1);
      delivered_total := delivered_total g; covered := covered g; done_idx := done_idx g;
      lost := if wrapped then fupd (lost g) i (lost g i + 1) else lost g |}.
 
 (* notify(i) of a thread whose activation index is x returns Ok *)
 Definition returned (g : egst) (s : nst) (i x : N) : egst :=
-  {| kind := kind g; cap := cap g; tcap := tcap g; pdist := pdist g; after_wait := after_wait g; after_empty := after_empty g; words := words g; st := s; trig := trig g;
+  {| kind := kind g; cap := cap g; tcap := tcap g; repaired := repaired g; pdist := pdist g; after_wait := after_wait g; after_empty := after_empty g; words := words g; st := s; trig := trig g;
      notified_total := notified_total g; delivered_total := delivered_total g; covered := covered g;
      done_idx := fupd (done_idx g) i (N.max (done_idx g i) x); lost := lost g |}.
 
 (* Drain step of word w *)
 Definition drained (g : egst) (w : N) : egst :=
   let k := kind g in
-  {| kind := k; cap := cap g; tcap := tcap g; pdist := pdist g; after_wait := after_wait g; after_empty := after_empty g; words := fupd (words g) w 0; st := st g; trig := trig g;
+  {| kind := k; cap := cap g; tcap := tcap g; repaired := repaired g; pdist := pdist g; after_wait := after_wait g; after_empty := after_empty g; words := fupd (words g) w 0; st := st g; trig := trig g;
      notified_total := notified_total g;
      delivered_total := (fun j => if N.eqb (widx k j) w then delivered_total g j + pend k (words g) j else delivered_total g j);
      covered := (fun j => if N.eqb (widx k j) w then notified_total g j else covered g j);
@@ -226,8 +229,11 @@ Definition step (t : nat) (g : egst) (l : elst) : option (egst * elst * list ev)
     Some (upd_real g (words g) Idle (trig g), set_l l (prog l) LEmpty,
           [EAcc 64 B_STATE 0 KStore SeqCst SeqCst 0 0 true])
   | LEmpty =>
-    Some (upd_real g (words g) (st g) (after_empty g (trig g)), set_l l (prog l) (LDrainPtr 0 0),
+    Some (upd_real g (words g) (st g) (after_empty g (trig g)), set_l l (prog l) (if repaired g then LStoreIdle2 else LDrainPtr 0 0),
           [EAcc 65 B_TRIG 0 KSwap SeqCst SeqCst (trig g) (after_empty g (trig g)) true])
+  | LStoreIdle2 =>
+    Some (upd_real g (words g) Idle (trig g), set_l l (prog l) (LDrainPtr 0 0),
+          [EAcc 66 B_STATE 0 KStore SeqCst SeqCst 0 0 true])
   | LDrainPtr w total =>
     Some (g, set_l l (prog l) (LDrain w total), [EAcc 69 B_PTR 0 KLoad Relaxed Relaxed (pdist g) 0 true])
   | LDrain w total =>
@@ -248,13 +254,13 @@ Definition pol_model : tpolicy := {| pol_wait := fun n => n - 1; pol_empty := fu
 Definition pol_take_all : tpolicy := {| pol_wait := fun _ => 0; pol_empty := fun _ => 0 |}.
 Definition pol_one_each : tpolicy := {| pol_wait := fun n => n - 1; pol_empty := fun n => n - 1 |}.
 
-Definition g_init (k : ekind) (c : N) (tc : option N) (po : tpolicy) (pd : N) : egst :=
-  {| kind := k; cap := c; tcap := tc; pdist := pd; after_wait := pol_wait po; after_empty := pol_empty po; words := zero; st := Idle; trig := 0;
+Definition g_init (rp : bool) (k : ekind) (c : N) (tc : option N) (po : tpolicy) (pd : N) : egst :=
+  {| kind := k; cap := c; tcap := tc; repaired := rp; pdist := pd; after_wait := pol_wait po; after_empty := pol_empty po; words := zero; st := Idle; trig := 0;
      notified_total := zero; delivered_total := zero; covered := zero; done_idx := zero; lost := zero |}.
 Definition l_init (p : list eop) (ff : bool) : elst := {| prog := p; at_pc := PIdle; ffull := ff; my_idx := 0 |}.
 (* thread 0 = listener with the waits lp; thread t+1 = notifier with the ids (np t) *)
-Definition init (k : ekind) (c : N) (tc : option N) (po : tpolicy) (pd : N) (lp : list wmode) (np : nat -> list N) (ff : nat -> bool) : cfg egst elst :=
-  (g_init k c tc po pd, fun t => match t with O => l_init (map OWait lp) false | S u => l_init (map ONotify (np u)) (ff u) end).
+Definition init (rp : bool) (k : ekind) (c : N) (tc : option N) (po : tpolicy) (pd : N) (lp : list wmode) (np : nat -> list N) (ff : nat -> bool) : cfg egst elst :=
+  (g_init rp k c tc po pd, fun t => match t with O => l_init (map OWait lp) false | S u => l_init (map ONotify (np u)) (ff u) end).
 
 (* ---- the statements the property talks about, as predicates on configurations ---- *)
 Definition listener_pc (c : cfg egst elst) : epc := at_pc (snd c O).
